@@ -314,10 +314,27 @@ def eval_program_env(mod: ast.Module) -> Dict[str, Any]:
     return env
 
 
+def _nan_aware_equal(a, b, depth: int) -> bool:
+    """`==` except that a NaN equals a NaN (two pickled NaNs are the same value although IEEE says nan != nan)."""
+    if depth > 50 or type(a) is not type(b):
+        return False
+    if isinstance(a, float):
+        return a == b or (a != a and b != b)
+    if isinstance(a, (list, tuple)):
+        return len(a) == len(b) and all(_nan_aware_equal(x, y, depth + 1) for x, y in zip(a, b))
+    if isinstance(a, dict):
+        return len(a) == len(b) and all(_nan_aware_equal(k1, k2, depth + 1) and _nan_aware_equal(v1, v2, depth + 1) for (k1, v1), (k2, v2) in zip(a.items(), b.items()))
+    return a == b
+
+
 def same_value(a, b) -> bool:
     """The property's comparison for results: structurally equal (`==`, same type)."""
     try:
-        return type(a) is type(b) and a == b
+        if type(a) is not type(b):
+            return False
+        if a == b:
+            return True
+        return _nan_aware_equal(a, b, 0)
     except RecursionError:
         return repr(a) == repr(b)
     except Exception:
